@@ -337,6 +337,13 @@ pub fn shape_programs() -> Vec<String> {
     };
     for a in tys { for r in tys { mk(&[a], r); } }
     for a in tys { for b in tys { for r in ["()", "u8", "[u8; 0]", a] { mk(&[a, b], r); } } }
+    // reading and writing elements of arrays whose elements are zero-sized
+    for t in ["()", "[u8; 0]", "((), ())", "E0", "Z1", "S1", "[(); 2]"] {
+        let pre = prelude(t);
+        out.push(format!("{pre}pub fn main(mut x0: [{t}; 2], y: u8) -> u8 {{ x0[0usize] = x0[1usize]; y }}\n"));
+        out.push(format!("{pre}pub fn main(mut x0: [[{t}; 1]; 2], i: usize) -> [{t}; 1] {{ x0[i][0usize] = x0[1usize][0usize]; x0[i] }}\n"));
+        out.push(format!("{pre}pub fn main(mut x0: ([{t}; 2], u8)) -> u8 {{ x0.0[1usize] = x0.0[0usize]; for e in x0.0 {{ x0.1 = x0.1 + 1u8; }} x0.1 }}\n"));
+    }
     // the join built-in: rows with associated data of different widths on the two sides
     let rows = ["(u8, u16, u16)", "(u8, bool)", "(u8, u32)", "(u8, (u8, u8), i64)", "(u8, [bool; 3])"];
     for ra in rows { for rb in rows {
